@@ -107,11 +107,13 @@ func (e *vhTreeEnv) constrainSeparators(page int) (lo, hi int64) {
 
 var vhShapes = [8][2]int{{1, 1}, {1, 2}, {2, 1}, {2, 2}, {1, 3}, {2, 3}, {3, 1}, {3, 2}}
 
-// vhTreeShape: (depth, cells per page); shapes 0..3 in the quick tier, all 8 in
-// the thorough tier. Harnesses using it carry //verif:shards 8.
+// vhTreeShape: (depth, cells per page); shapes 0..4 and 6 in the quick tier
+// (a single leaf of three cells is the smallest page on which "position = key
+// minus first key" shortcuts can go wrong), all 8 in the thorough tier.
+// Harnesses using it carry //verif:shards 8.
 func vhTreeShape() (depth, fan int) {
 	k := verifShard(8)
-	if k >= 4 && k != 6 && verifTier() == 0 {
+	if k >= 5 && k != 6 && verifTier() == 0 {
 		verifAssume(false)
 	}
 	return vhShapes[k][0], vhShapes[k][1]
